@@ -300,4 +300,41 @@ C05Trunc ==
         who == IF Len(outs) > 0 THEN {outs[k] : k \in 1..Len(outs)} ELSE {0}
     IN \A p \in who : \A e \in 1..Len(pre) :
          TruncOutcomeOK(SignedOf(pre[e], m, sg), revealed(p)[e], scale, m, sg)
+\* The same for a source program whose output is a tuple of Truncate nodes (several truncations, of different kinds, in
+\* one graph: the compiler decides per graph which truncation keys to distribute), revealed outputs only.
+C05Tuple ==
+  (Mode = "three" /\ Finished) =>
+    LET G == M(g)  src == S(g)  so == OutNode(src)
+        comps == src[so].deps
+        vals == EvalFrom(src, SrcPlanT[g], 1, <<>>, x)
+        outs == Progs[g].outs
+    IN \A k \in 1..Len(outs) : \A c \in 1..Len(comps) :
+         LET tn == src[comps[c]]
+             m == Modulus(tn.ty.st)  sg == IsSigned(tn.ty.st)
+             pre == vals[tn.deps[1]]
+             got == store[OutNode(G)][outs[k]][c]
+         IN \A e \in 1..Len(pre) : TruncOutcomeOK(SignedOf(pre[e], m, sg), got[e], tn.scale, m, sg)
+
+\* C02 / C01 for programs that end in Truncate (whose result is not a function of the inputs): the outcome condition of
+\* C05 for every output party, and in addition what C02Three demands of any result: output parties agree, the copies
+\* of a share held by its two holders agree.
+C02Trunc ==
+  (Mode = "three" /\ Finished) =>
+    LET G == M(g)  outs == Progs[g].outs
+        d == SharedOutDeps(G)
+        sh(p, c) == IF d # <<>> THEN store[d[c + 1]][p] ELSE store[OutNode(G)][p][c + 1]
+    IN /\ C05Trunc
+       /\ IF Len(outs) > 0 THEN \A k \in 1..Len(outs) : store[OutNode(G)][outs[k]] = store[OutNode(G)][outs[1]]
+          ELSE \A p \in Parties : sh(p, (p + 1) % 3) = sh((p + 1) % 3, (p + 1) % 3)
+
+C01Trunc ==
+  (Mode = "single" /\ Finished) =>
+    LET G == M(g)  src == S(g)  so == OutNode(src)
+        scale == src[so].scale
+        st == src[so].ty.st
+        m == Modulus(st)  sg == IsSigned(st)
+        pre == EvalFrom(src, SrcPlanT[g], 1, <<>>, x)[src[so].deps[1]]
+        v == store[OutNode(G)][0]
+        val == IF Len(Progs[g].outs) > 0 THEN v ELSE AddV(AddV(v[1], v[2], ResultType), v[3], ResultType)
+    IN \A e \in 1..Len(pre) : TruncOutcomeOK(SignedOf(pre[e], m, sg), val[e], scale, m, sg)
 =============================================================================
